@@ -151,7 +151,8 @@ def print_assumptions(prop, module="Props", names=None, timeout=600):
             if "Closed under the global context" in body:
                 res[name] = []
             else:
-                res[name] = re.findall(r"^([A-Za-z_][\w.']*)\s*:", body, re.M)
+                res[name] = [a for a in re.findall(r"^([A-Za-z_][\w.']*)\s*:", body, re.M)
+                             if a != "Axioms"]   # "Axioms:" is the header line, not a name
         return res
     finally:
         shutil.rmtree(gen, ignore_errors=True)
